@@ -71,6 +71,7 @@ type netWorld struct {
 
 	extraOps  map[string]func(it Item)
 	afterItem []func(it Item)
+	armLoopPark bool
 	vmu       sync.Mutex
 }
 
@@ -125,6 +126,18 @@ func newNetWorld(s *sim) *netWorld {
 // start creates the nodes described by the plan.
 func (w *netWorld) start() bool {
 	p := w.plan
+	verifYieldFn = func(point int) {
+		if point != verifLoopRequest {
+			return
+		}
+		w.s.mu.Lock()
+		a := w.armLoopPark
+		w.armLoopPark = false
+		w.s.mu.Unlock()
+		if a {
+			w.s.park("net-loop-request", nil, nil, nil)
+		}
+	}
 	routers := p.ks("routers", "gg")
 	RandomSubD = p.ki("rsub_d", 6)
 	kr := newPrng(p.Seed, "netkeys")
@@ -322,6 +335,12 @@ func (w *netWorld) exec(it Item) {
 		if s.hv("resetorder|"+st.name)&1 == 1 {
 			ends[0], ends[1] = ends[1], ends[0]
 		}
+		if it.a(2) == 1 {
+			// only the opener's end dies now; the reader learns when the opener's own Reset arrives,
+			// one link latency later - possibly after the replacement stream
+			ends = []*simStream{st}
+			s.probe("reset_writer_end_first")
+		}
 		for _, e := range ends {
 			e := e
 			if e == nil {
@@ -385,6 +404,24 @@ func (w *netWorld) exec(it Item) {
 			ss.startConsumer()
 			s.settle()
 		}
+	case "recancel":
+		// Cancel called again on a subscription that is already cancelled: no effect
+		i := w.idx(it.a(0))
+		n := w.nodes[i]
+		var dead []*simSub
+		n.mu.Lock()
+		for _, ss := range n.subs {
+			if ss.canc {
+				dead = append(dead, ss)
+			}
+		}
+		n.mu.Unlock()
+		if len(dead) == 0 {
+			return
+		}
+		ss := dead[int(it.a(1))%len(dead)]
+		s.probe("cancel_called_twice")
+		s.do(fmt.Sprintf("Cancel(again) N%d sub%d", i, ss.id), func() any { ss.sub.Cancel(); return nil })
 	case "relay":
 		i, t := w.idx(it.a(0)), w.topicName(it.a(1))
 		n := w.nodes[i]
@@ -419,8 +456,27 @@ func (w *netWorld) exec(it Item) {
 			return
 		}
 		w.churn()
+		if it.a(2) == 2 {
+			// the same cancel function called by two tasks at once while the event loop is busy with
+			// another request: both calls are in flight before either is handled
+			s.probe("relay_cancel_twice_concurrently")
+			w.armLoopPark = true
+			s.spawn(fmt.Sprintf("GetTopics N%d (keeps the loop busy)", i), func() any { return len(n.ps.GetTopics()) })
+			s.settle()
+			w.armLoopPark = false
+			s.spawn(fmt.Sprintf("RelayCancel N%d %s (task 1)", i, t), func() any { cf(); return nil })
+			s.spawn(fmt.Sprintf("RelayCancel N%d %s (task 2)", i, t), func() any { cf(); return nil })
+			s.settle()
+			for _, g := range s.parkedGates() {
+				if strings.HasPrefix(g.id, "net-loop-request") {
+					s.release(g, 0)
+				}
+			}
+			s.settle()
+			return
+		}
 		s.do(fmt.Sprintf("RelayCancel N%d %s", i, t), func() any { cf(); return nil })
-		if it.a(2) != 0 {
+		if it.a(2) == 1 {
 			// cancelling a relay reference twice must not release another holder's reference
 			s.do(fmt.Sprintf("RelayCancel(again) N%d %s", i, t), func() any { cf(); return nil })
 		}
